@@ -63,6 +63,22 @@ def maybe_org_edit(rng, spec, prob=0.3):
     return spec
 
 
+def maybe_dep_edit(rng, spec, prob=0.3):
+    """Extend a two-call history (state reset) by a dependency that is added between the calls with
+    extend_input_task_list / append_input_task.  spec["model"] is the model *after* the edit."""
+    h = spec.get("history")
+    m = spec["model"]
+    if h is None or not h["state"] or h.get("org_edit") or not m["deps"] or m.get("ext_preds") or rng.random() >= prob:
+        return spec
+    i = rng.randrange(len(m["deps"]))
+    d = m["deps"].pop(i)
+    m["deps"].append(d)  # a link made later is the last one of the successor's list
+    h["org_edit"] = [["add_dep", d[0], d[1], d[2], rng.random() < 0.6]]
+    if h.get("k") is None:
+        h["k"] = rng.randint(0, 12)
+    return spec
+
+
 def maybe_abs_edit(rng, spec, prob=0.3):
     """Extend a two-call history by an edit of a worker's / facility's own absence list between the calls.  spec["model"]
     holds the list *after* the edit."""
@@ -97,6 +113,10 @@ def pre_edit_model(model, ops):
             w = next(w for w in m["teams"][tb]["workers"] if w["id"] == wid)
             m["teams"][tb]["workers"].remove(w)
             m["teams"][ta]["workers"].append(w)
+        elif op[0] == "add_dep":
+            idx = [i_ for i_, d in enumerate(m["deps"]) if d[0] == op[1] and d[1] == op[2] and d[2] == op[3]]
+            if idx:
+                del m["deps"][idx[-1]]
         elif op[0] == "set_abs":
             _, kind, rid, old, new = op
             for r in ([w for tm in m["teams"] for w in tm["workers"]] if kind == "worker" else [f for wp in m["wps"] for f in wp["facs"]]):
@@ -121,6 +141,13 @@ def apply_org_edit(p, model, ops):
             w = next(w for w in old.worker_list if w.ID == wid)
             old.worker_list.remove(w)
             new.add_worker(w)
+        elif op[0] == "add_dep":
+            TD = env_mod().bt.BaseTaskDependency
+            pred, succ = task[model["tasks"][op[1]]["id"]], task[model["tasks"][op[2]]["id"]]
+            if op[4]:
+                succ.extend_input_task_list([pred], TD(op[3]))
+            else:
+                succ.append_input_task(pred, task_dependency_mode=TD(op[3]))
         elif op[0] == "set_abs":
             _, kind, rid, old_, new_ = op
             pool = [w for tm in p.organization.team_list for w in tm.worker_list] if kind == "worker" else \
@@ -130,6 +157,11 @@ def apply_org_edit(p, model, ops):
                 r.absence_time_list.extend(list(new_)[len(old_):])  # the user's list extended in place
             else:
                 r.absence_time_list = list(new_)
+
+
+def env_mod():
+    from .. import env
+    return env.M
 
 
 def maybe_from_json(rng, spec, prob=0.08):
@@ -176,6 +208,14 @@ def history_candidates(spec):
             yield c
 
 
+def call_getters(p):
+    """Helpers whose names say they only read (a user may call them at any time)."""
+    org, wf, prod = p.organization, p.workflow, p.product
+    for fn in (org.get_worker_list, org.get_facility_list, org.get_team_list, org.get_workplace_list, wf.get_task_list,
+               prod.get_component_list, p.get_all_task_list if hasattr(p, "get_all_task_list") else wf.get_task_list):
+        D.call(lambda: fn())
+
+
 def run_forward(spec, **kw):
     """Run the scenario's simulate() call under a Recorder.  With spec["history"] the observed call is the second
     one of a two-call history on the same project object (see maybe_history)."""
@@ -210,6 +250,18 @@ def run_forward(spec, **kw):
         new, ow, orr = scen.save_load(tr.built.project, "mem:model.json", spec.get("ranks"))
         tr.project = new if new is not None else tr.built.project
         tr.restored_from_json = new is not None
+        tr.rec, tr.out = scen.simulate(tr.project, spec["cfg"], **kw)
+        tr.ix = tr.rec.ix
+        tr.log_offset = 0
+        tr.history = None
+        return tr
+    if hist is None and spec.get("getters_first"):
+        tr = scen.Trace()
+        tr.model, tr.cfg = spec["model"], spec["cfg"]
+        tr.built = B.build(spec["model"], spec.get("ranks"))
+        tr.project = tr.built.project
+        tr.absence = set(spec["cfg"].get("absence", []))
+        call_getters(tr.project)
         tr.rec, tr.out = scen.simulate(tr.project, spec["cfg"], **kw)
         tr.ix = tr.rec.ix
         tr.log_offset = 0
